@@ -12,8 +12,8 @@ fn groups_for(prop: &str, ctx: &Ctx) -> Vec<Box<dyn Group>> {
     use groups::*;
     match prop {
         "C19" => vec![Box::new(c19::Split), Box::new(c19::Msg), Box::new(c19::Dispatch::new(ctx)), Box::new(c19::InFlight)],
-        "C09" => vec![Box::new(c09::Reply), Box::new(c09::Tiling)],
-        "C12" => vec![Box::new(c12::Run), Box::new(c12::Serve)],
+        "C09" => vec![Box::new(c09::Reply), Box::new(c09::Tiling), Box::new(c09::Wire)],
+        "C12" => vec![Box::new(c12::Run), Box::new(c12::Serve), Box::new(c12::Hosts)],
         "C18" => vec![Box::new(c18::Write), Box::new(c18::Replace), Box::new(c18::ReadAll)],
         "C16" => vec![Box::new(c16::Ops), Box::new(c16::Present), Box::new(c16::Trace)],
         "C15" => vec![Box::new(c15::Route), Box::new(c15::Isolation), Box::new(c15::Conn)],
@@ -28,7 +28,7 @@ fn groups_for(prop: &str, ctx: &Ctx) -> Vec<Box<dyn Group>> {
         "C17" => vec![Box::new(c17::Hist::new(ctx))],
         "C08" => vec![Box::new(c08::Framing)],
         "C20" => vec![Box::new(c20::Pair::new()), Box::new(c20::MuxStreams::new())],
-        "C10" => vec![Box::new(c10::Nested)],
+        "C10" => vec![Box::new(c10::Nested), Box::new(c10::Ctl)],
         "C11" => vec![Box::new(c11::Chain)],
         "C02" => vec![Box::new(c02::Headers), Box::new(c02::Head), Box::new(c02::Stack), Box::new(c02::Crawl), Box::new(c09::Reply), Box::new(c15::Route),
             Box::new(c16::Present), Box::new(c14::NonceRewrite::new()), Box::new(c06::ListHeader), Box::new(c01::San), Box::new(c18::Replace)],
